@@ -159,7 +159,7 @@ def run(chk):
     for c in (K.check_property_contract(), K.acf_contract(), K.update_allow_contract(), K.authset_contract(), K.find_opt_contract()):
         chk.prove(c); chk.canary(c)
     from contracts import stores as KS
-    for m in ('all_versions', 'query'):          # filters passed down by a composite reach every member (call-site obligations of the federation contract)
+    for m in ('all_versions', 'query', 'get'):          # filters passed down by a composite reach every member (call-site obligations of the federation contract)
         c = KS.composite_federation_contract(m); chk.prove(c); chk.canary(c)
     for v in ('list', 'single', 'none'):          # how filters reach a source: FilterSet.add keeps everything attached before and gains exactly what is handed in
         c = K.filterset_add_contract(v); chk.prove(c); chk.canary(c)
